@@ -143,3 +143,68 @@ def check_map_keys(ctx, rep, rid, scope_prefixes):
             rep.ob(rid, ctx.user_fn_of(d), '%s.%s(%s)' % (cname, (c.fn or '').split('::')[-1], _nm(ke)), ok, c.where(),
                    None if ok else 'the map of %ss `%s` is accessed with `%s`, which is a %s id' % (ck, cname, render(ke)[:80], kk))
     return n
+
+
+# ---------------------------------------------------------------------------------------------------- shared counters
+COUNTER_PARAM = re.compile(r'^(size|messages_count|segments_count)_of_parent_(stream|topic|partition)$')
+OWN_COUNTER = {'size_bytes': 'size', 'messages_count': 'messages_count', 'segments_count': 'segments_count'}
+LEVEL_OF_ADT = {'server::streaming::streams::stream::Stream': 'stream', 'server::streaming::topics::topic::Topic': 'topic',
+                'server::streaming::partitions::partition::Partition': 'partition'}
+
+
+def counter_kind(e):
+    """(what, level) of a shared counter expression: `x.size_of_parent_topic` or the own counter `topic.size_bytes`"""
+    e = strip_adaptors(e)
+    if e[0] == 'call' and e[1].split('::')[-1] in ('clone',) and e[2]:
+        return counter_kind(e[2][0])
+    if e[0] == 'field':
+        m = COUNTER_PARAM.match(e[2])
+        if m:
+            return (m.group(1), m.group(2))
+        if e[2] in OWN_COUNTER and len(e) > 3 and e[3] in LEVEL_OF_ADT:
+            return (OWN_COUNTER[e[2]], LEVEL_OF_ADT[e[3]])
+        return None
+    if e[0] in ('param', 'upvar'):
+        m = COUNTER_PARAM.match(e[1])
+        return (m.group(1), m.group(2)) if m else None
+    if e[0] == 'local' and e[2]:
+        m = COUNTER_PARAM.match(e[2])
+        return (m.group(1), m.group(2)) if m else None
+    return None
+
+
+def check_counter_kinds(ctx, rep, rid, scope_prefixes):
+    """the shared size / message / segment counters handed down the hierarchy reach the parameter of their own kind and level
+    (`size_of_parent_topic` receives a topic's size counter, not the stream's)"""
+    n = 0
+    for d in sorted(ctx.facts.body_defs()):
+        if not any(in_crate(d, p) for p in scope_prefixes) or '::tests' in d:
+            continue
+        raw = ctx.facts.raw_body(d)
+        b = None
+        for bl in raw['blocks']:
+            t = bl.get('term')
+            if not t or t.get('t') != 'call' or t.get('x', '').startswith('m:'):
+                continue
+            callee = t.get('res') or t.get('fn')
+            rec = ctx.facts.fns.get(callee) if callee else None
+            if not rec or not rec.get('pnames'):
+                continue
+            pk = [COUNTER_PARAM.match(p or '') for p in rec['pnames']]
+            if not any(pk):
+                continue
+            if b is None:
+                b = ctx.body(d)
+            for i, m in enumerate(pk):
+                if not m or i >= len(t['args']):
+                    continue
+                ae = b.expr_operand(t['args'][i])
+                ak = counter_kind(ae)
+                if ak is None:
+                    continue
+                n += 1
+                want = (m.group(1), m.group(2))
+                ok = ak == want
+                rep.ob(rid, ctx.user_fn_of(d), '%s(%s:=%s)' % (short(callee), rec['pnames'][i], _nm(ae)), ok, '%s:%s' % (b.file, t.get('ln')),
+                       None if ok else 'parameter `%s` of %s receives `%s`, which is the %s counter of a %s: sizes/counts are then added to the wrong level (or twice to one level)' % (rec['pnames'][i], short(callee), render(ae)[:80], ak[0], ak[1]))
+    return n
